@@ -16,6 +16,14 @@ from .. import annetenv as E
 
 FAMS = ["ipv4_unicast", "ipv6_unicast", "ipv4_labeled_unicast"]
 L_ADDR, R_ADDR = "10.0.0.1/31", "10.0.0.0/31"
+# address pairs as a handler may write them, each with the canonical text of the bare address (a literal table: no formatter is trusted);
+# IPv6 has many spellings of one address (upper-case digits, uncompressed zero groups, leading zeros)
+ADDR_PAIRS = [((L_ADDR, "10.0.0.1"), (R_ADDR, "10.0.0.0"))] * 5 + [
+    (("2001:DB8:0:0:0:0:A:1/127", "2001:db8::a:1"), ("2001:DB8:0:0:0:0:A:0/127", "2001:db8::a:0")),
+    (("2001:db8:00ff::2/64", "2001:db8:ff::2"), ("2001:db8:00ff::3/64", "2001:db8:ff::3")),
+    (("FE80:0000:0000:0000:0000:0000:0000:0001/64", "fe80::1"), ("fe80::2/64", "fe80::2")),
+    (("2001:db8::1/127", "2001:db8::1"), ("2001:db8:0:0:1:0:0:1/64", "2001:db8::1:0:0:1")),
+]
 
 
 def mk_handler(tab, hid):
@@ -23,14 +31,38 @@ def mk_handler(tab, hid):
         for side, obj in (("L", left), ("R", right), ("S", session)):
             for kv in tab[side]["f"]:
                 k, v = kv["k"], kv["v"]
-                if v.startswith("@"):          # derived from the device's own name: {n} of the template it matched
-                    v = str(int(v[1:]) + int(obj.match.n))
+                if v.startswith("@"):          # derived from the device's own name: the number its template captured
+                    v = str(int(v[1:]) + int(devnum(obj)))
                 val = int(v) if k in ("mtu", "lag", "svi", "subif") or (k == "asnum" and v.isdigit()) else (v == "1" if k == "bfd" else v)
                 setattr(obj, k, val)
             if tab[side]["fam"]:
                 obj.families = set(tab[side]["fam"])
     handler.__name__ = "handler_%d" % hid
     return handler
+
+
+def devnum(obj):
+    for name in ("n", "x", "y"):
+        try:
+            return getattr(obj.match, name)
+        except (AttributeError, KeyError):
+            pass
+    raise AttributeError("no number captured")
+
+
+def mk_sym_handler(t12, t21, hid):
+    """a handler of a rule whose templates fit the pair both ways: what it assigns is a function of (left, right) -- t12 when the device
+    numbered 1 is on the left, t21 when it is on the right"""
+    h12, h21 = mk_handler(t12, hid), mk_handler(t21, hid)
+
+    def handler(left, right, session):
+        return (h12 if int(devnum(left)) == 1 else h21)(left, right, session)
+    handler.__name__ = "sym_handler_%d" % hid
+    return handler
+
+
+def swap_lr(tab):
+    return {"L": copy.deepcopy(tab["R"]), "R": copy.deepcopy(tab["L"]), "S": copy.deepcopy(tab["S"])}
 
 
 def rnd_table(rnd, iface_mode, first=False, addrs=(L_ADDR, R_ADDR)):
@@ -78,13 +110,13 @@ def resolve(tab, nl=1, nr=2):
     return out
 
 
-def topo(nlinks, rev_b=False):
+def topo(nlinks, rev_b=False, names=("a1.ex", "b2.ex")):
     from tests.annet.test_mesh.fakes import FakeStorage, FakeDevice, FakeInterface
-    a = FakeDevice("a1.ex", [FakeInterface("if%d" % i, "b2.ex", "eth%d" % i) for i in range(nlinks)] + [FakeInterface("lo0", None, None)])
-    bports = [FakeInterface("eth%d" % i, "a1.ex", "if%d" % i) for i in range(nlinks)]
+    a = FakeDevice(names[0], [FakeInterface("if%d" % i, names[1], "eth%d" % i) for i in range(nlinks)] + [FakeInterface("lo0", None, None)])
+    bports = [FakeInterface("eth%d" % i, names[0], "if%d" % i) for i in range(nlinks)]
     if rev_b:
         bports.reverse()       # the far end lists its ports in another order
-    b = FakeDevice("b2.ex", bports + [FakeInterface("lo0", None, None)])
+    b = FakeDevice(names[1], bports + [FakeInterface("lo0", None, None)])
     st = FakeStorage()
     st.add_device(a)
     st.add_device(b)
@@ -185,6 +217,7 @@ def run(ctx):
     E.init()
     from annet.mesh import MeshExecutor, MeshRulesRegistry, united_ports, separate_ports
     from annet.mesh import basemodel
+    from annet.mesh.match_args import Left, Right
     quick = ctx.tier == "quick"
     rnd = ctx.rng
     ctx.cov["rule"] = ("(topology of two linked devices with 1..3 parallel links, set of 1..3 handler tables, rule kind, interface mode) x every registration "
@@ -194,6 +227,14 @@ def run(ctx):
     r = ctx.mc("mc/MC_Mesh.tla", "mc/MC_Mesh.cfg", workers=2)
     if r.violated:
         ctx.reject("mc", "Mesh model: %s" % r.violated, {"tlc": r.out[-2000:]}, None)
+    # both ends of a session, each looking its rules up on its own in both orientations
+    r = ctx.mc("mc/MC_MeshEnds.tla", "mc/MC_MeshEnds.cfg", workers=2)
+    if r.violated:
+        ctx.reject("mc-ends", "Mesh model (two ends): %s" % r.violated, {"tlc": r.out[-2000:]}, None)
+    r = ctx.mc("mc/MC_MeshEnds.tla", "mc/MC_MeshEnds_regress.cfg", workers=2, expect_ok=False)
+    if "Mirrored" not in r.violated:
+        raise core.Machinery("anti-vacuity: an end that skips the second orientation no longer breaks mirroring in the model")
+    ctx.cov["mc_runs"][-1]["expected"] = "Mirrored violated (an end stops after the first fitting orientation)"
     recs = []
     ncase = 500 if quick else 12000
     for k in range(ncase):
@@ -202,26 +243,53 @@ def run(ctx):
         kind = rnd.choice(["direct", "direct", "indirect"])
         if kind == "indirect":
             mode = "none"
-        hs = [rnd_table(rnd, mode if i == 0 else "plain", first=(i == 0)) for i in range(rnd.randint(1, 3))]
+        (la, ipl), (ra, ipr) = rnd.choice(ADDR_PAIRS)
+        hs = [rnd_table(rnd, mode if i == 0 else "plain", first=(i == 0), addrs=(la, ra)) for i in range(rnd.randint(1, 3))]
         rev = rnd.random() < 0.5
         runs = []
         alt_masks = rnd.choice([None, ("a{n:\\d+}.ex", "b{n:\\d+}.ex"), ("{x:[a]}{n}.ex", "{x:[b]}{n}.ex")])
         short = rnd.random() < 0.3          # rules written for short host names (registry option match_short_name), devices carry FQDNs
         nested = short and rnd.random() < 0.5
+        # same-tier pair: both devices fit both templates of the rule, which therefore applies in BOTH orientations, and what the handler
+        # assigns may depend on which device is `left`; the session is fed by both applications on both ends
+        sym = rnd.random() < 0.25
+        hs21 = []
+        if sym:
+            short = nested = False
+            for t in hs:
+                t21 = swap_lr(t)
+                roll = rnd.random()
+                if roll < 0.35:
+                    t21["S"]["fam"] = sorted(set(t21["S"]["fam"]) | {rnd.choice(FAMS)})
+                elif roll < 0.5:
+                    t21["L"]["fam"] = sorted(set(t21["L"]["fam"]) | {rnd.choice(FAMS)})
+                elif roll < 0.65:
+                    for kv in t21["L"]["f"]:
+                        if kv["k"] == "asnum":
+                            kv["v"] = "65099"           # the other orientation gives this device another AS: a conflict on both ends
+                elif roll < 0.75:
+                    t21["S"]["f"] = [kv for kv in t21["S"]["f"] if kv["k"] != "bfd"] + [{"k": "bfd", "v": rnd.choice(["0", "1"])}]
+                hs21.append(t21)
+        names = ("a1.ex", "a2.ex") if sym else ("a1.ex", "b2.ex")
         for perm in itertools.permutations(range(len(hs))):
-            st, a, b = topo(nlinks, rev)
+            st, a, b = topo(nlinks, rev, names)
             reg = MeshRulesRegistry(match_short_name=True) if short else MeshRulesRegistry()
             lm, rm = ("a{n}", "b{n}") if short else ("a{n}.ex", "b{n}.ex")
+            if sym:
+                lm, rm = "a{x}.ex", "a{y}.ex"
             for hi in perm:
                 # the rules feeding one session need not be written with the same name templates: later handlers may sit behind
                 # templates that capture the number as text (`{n:\\d+}`) or by another route (`{x}{n}`)
                 l2, r2 = (lm, rm)
-                if hi > 0 and alt_masks and not short:
+                if hi > 0 and alt_masks and not short and not sym:
                     l2, r2 = alt_masks
+                hnd = mk_sym_handler(hs[hi], hs21[hi], hi) if sym else mk_handler(hs[hi], hi)
                 if kind == "direct":
-                    reg.direct(l2, r2, port_processor=united_ports)(mk_handler(hs[hi], hi))
+                    reg.direct(l2, r2, port_processor=united_ports)(hnd)
+                elif sym:                   # indirect rules are tried on every pair of devices, a device paired with itself included
+                    reg.indirect(l2, r2, Left.x != Right.y)(hnd)
                 else:
-                    reg.indirect(l2, r2)(mk_handler(hs[hi], hi))
+                    reg.indirect(l2, r2)(hnd)
             if nested:                      # ... also when that registry is included into a plain one
                 outer = MeshRulesRegistry()
                 outer.include(reg)
@@ -240,8 +308,9 @@ def run(ctx):
         want_if = ("", "")
         if kind == "direct":
             want_if = {"port": ("if0", "eth0"), "lag": ("Trunk1", "Trunk2"), "svi": ("Vlan100", "Vlan200"), "subif": ("if0.7", "eth0.7")}[mode]
-        rec = {"id": "pair-%d" % len(recs), "kind": "pair", "hs": [resolve(h) for h in hs], "hs_src": hs, "ipL": L_ADDR.split("/")[0], "ipR": R_ADDR.split("/")[0], "runs": runs,
-               "ifaceA": want_if[0], "ifaceB": want_if[1], "ambiguous": kind == "direct" and nlinks > 1 and mode in ("port", "subif"), "meta": {"links": nlinks, "mode": mode, "rule": kind}}
+        judged = [resolve(h) for h in hs] + [swap_lr(resolve(h, 2, 1)) for h in hs21]      # both applications, written from a1's side
+        rec = {"id": "pair-%d" % len(recs), "kind": "pair", "hs": judged, "hs_src": hs + hs21, "ipL": ipl, "ipR": ipr, "runs": runs,
+               "ifaceA": want_if[0], "ifaceB": want_if[1], "ambiguous": kind == "direct" and nlinks > 1 and mode in ("port", "subif"), "meta": {"links": nlinks, "mode": mode, "rule": kind, "symmetric_templates": sym, "addresses": [la, ra]}}
         recs.append(rec)
         ctx.count(len(runs))
         if len(hs) >= 2:
